@@ -257,9 +257,17 @@ def run_case_sanitized(mod: Any, case: dict[str, Any]) -> dict[str, Any]:
     run_case plus the generic sanitizer of the closed-loop simulations: anything handed to asyncio's exception handler while the case
     ran (an exception raised inside a callback) means that some piece of the operator broke unnoticed.
     """
-    from kv import driver
+    from kv import driver, vthreads
     del driver.ALL_LOOP_ERRORS[:]
+    gt0 = vthreads.COUNTERS['gate_timeouts']
+    tc0 = vthreads.COUNTERS['thread_calls']
     r = mod.run_case(case)
+    if vthreads.COUNTERS['thread_calls'] > tc0 and isinstance(r.get('cov'), dict):
+        r['cov']['handler_calls_in_threads'] = vthreads.COUNTERS['thread_calls'] - tc0      # synchronous handlers run by kopf's thread pool
+    if vthreads.COUNTERS['gate_timeouts'] > gt0:
+        # a handler thread neither finished nor blocked within the real-time budget of the thread gate: virtual time may have leaked.
+        # That is a failure of the harness (e.g. an exhausted thread pool, an overloaded machine), never a verdict about kopf.
+        raise RuntimeError(f"thread gate timed out {vthreads.COUNTERS['gate_timeouts'] - gt0} time(s) in this case: inconclusive")
     if not getattr(mod, 'SANITIZE_LOOP_ERRORS', False):
         return r          # only the properties that speak about the operator's health (crash-freedom, fail-fast) judge it
     # Only what asyncio reports on the spot (an exception raised inside a callback or a protocol). 'Task exception was never retrieved' is
